@@ -219,6 +219,19 @@ func checkTxPaths(b []byte, rep *report) {
 		obs += fmt.Sprintf("%s=%s ", p.name, v)
 	}
 	kind := noncanonKind(b, canon)
+	// The exception is exactly: the paths that hash the RECEIVED bytes (NewTransactionFromBytes: frombytes, P2P
+	// CMDTX, and the JSON made from it) may differ from the paths that hash the re-encoding (DecodeBinary: stream,
+	// block body, CMDBlock, database form), and only when the bytes are not canonical (theorem
+	// tx_identity_path_independent_iff_canonical). Everything else is a violation whatever the bytes look like:
+	// inside one class the paths must agree on every input.
+	same := func(a, b txView) bool { return a.ok && b.ok && a.hash == b.hash && a.size == b.size && a.dump == b.dump }
+	for _, cl := range [][2]int{{2, 1}, {4, 1}, {5, 1}, {3, 0}} { // block~stream, p2p-block~stream, db~stream, p2p~frombytes
+		a, bb := views[cl[0]], views[cl[1]]
+		if a.ok && bb.ok && !same(a, bb) {
+			rep.fail("tx-path-class", "paths %s and %s decode the same bytes the same way but report %s vs %s: %s",
+				paths[cl[0]].name, paths[cl[1]].name, a, bb, trunc(hx.Hex(b), 160))
+		}
+	}
 	for i, p := range paths {
 		v := views[i]
 		switch {
